@@ -79,6 +79,17 @@ CLAIMED = {
             "trusted: TLC, the transcription of the Jsonnet semantics in Core.tla (call-by-name; integers < 1e9, exact division; "
             "fuel-bounded: programs outside this domain are not judged); the pretty-printer of the driver",
             "DESIGN.md §4 C01"),
+    "C06": ("TLA+ specs Grammar (parser for the Jsonnet expression grammar) and Lexical (literal decoding) evaluated by TLC "
+            "on ALL token / piece sequences up to a length bound; each text parsed by the ir, peg and rowan parsers and "
+            "compared with the specification's tree",
+            "TLC enumerates every token sequence of length <=4 (thorough <=5) over six family alphabets, every pair of operators in "
+            "both nestings, and every literal built from <=3 escape/character pieces, number texts of <=5 pieces and text blocks "
+            "of <=3 lines; both evaluator parsers must accept exactly the texts the grammar accepts and build exactly its tree "
+            "(spans erased), the rowan parser must report no error exactly then and reproduce the input text",
+            "trusted: TLC, the transcription of the Jsonnet grammar/lexical rules in Grammar.tla and Lexical.tla; static checks "
+            "(duplicate names, stand-alone super, computed imports) and forms the Jsonnet documents leave open are only checked "
+            "for agreement between the two evaluator parsers",
+            "DESIGN.md §4 C06"),
 }
 
 NOT_YET = "specification module and binding not built yet in this round; see DESIGN.md §4 for the planned model"
